@@ -362,6 +362,8 @@ void inv(Vec& v, const Model<LT::N>& m, int base)
             // C04: elements in index order inside [data_begin(), data_end()), no overlap; iterator.data() == reference.data_begin()
             const auto r = cv[i];
             verif_assert(addr_of(r.data_begin()) >= prev_end && addr_of(r.data_end()) <= addr_of(cv.data_end()), base + 98);
+            // C05: each element starts at the lowest address aligned to the largest parameter alignment after the previous one
+            verif_assert(addr_of(r.data_begin()) == ((prev_end + LT::SALIGN - 1) & ~(static_cast<std::uintptr_t>(LT::SALIGN) - 1)), base + 99);
             verif_assert(addr_of((cv.begin() + i).data()) == addr_of(r.data_begin()), base + 98);
             prev_end = addr_of(r.data_end());
         }
